@@ -39,7 +39,7 @@ def main():
         verdicts = {}
         for c in checks:
             for sd in seeds:
-                rc, out = sh("./check %s" % c, cwd="/verif", env=dict(os.environ, VERIF_REPO=w, VERIF_SEED=sd), timeout=3000)
+                rc, out = sh("./check %s" % c, cwd="/verif", env=dict(os.environ, VERIF_REPO=w, VERIF_SEED=sd, VERIF_EVIDENCE_DIR="/var/tmp/seedverify/evidence"), timeout=3000)
                 lines = [l[:260] for l in out.splitlines() if l.startswith(("VIOLATION", "KNOWN-FINDING")) or " tier=" in l or "BROKEN" in l]
                 verdicts["%s/seed%s" % (c, sd)] = dict(rc=rc, lines=lines[:6])
                 print("  check %s seed %s: rc=%d %s" % (c, sd, rc, " | ".join(lines[:3])[:400]))
